@@ -576,10 +576,13 @@ def gen_probe(rng, i):
         tree = ("list", [tg.num(d - 1) for _ in range(rng.randint(2, 3))]) if rng.random() < 0.5 else tg.lst(d)
     else:
         tree = tg.num(d)
+    rc = ref_ctx()
     try:
-        val = exprref.eval_tree(tree, ref_ctx())
+        val = exprref.eval_tree(tree, rc)
     except Malformed:
         return None
+    if rc.div_by_zero:
+        return None      # the sign of a zero (e.g. of an empty sum) is not fixed by 'conventional semantics': not judged
     if ctxk == "loop":
         if not isinstance(val, float) or val != val:
             return None
